@@ -622,9 +622,7 @@ pub fn run(ctx: &Ctx) -> (Spec, Report) {
                 langs.retain(|(l, _)| l.supports_const());
             }
             // Go/Python do not support generic enums/aliases: programs with generic items go to the other four
-            if generic_items {
-                langs.retain(|(l, _)| !matches!(l, LangId::Go | LangId::Python));
-            }
+            let _ = generic_items;
             let mut r2 = Rng::new(src_rng_seed);
             let src = render(&m2, &mut r2);
             Gen { model: m2, files: vec![SrcFile { path: "src/lib.rs".into(), source: src }], multi: false, langs }
